@@ -226,6 +226,22 @@ fn from_f64_random(ctx: &mut Ctx, acc: &mut Acc, rng: &mut Rng, n: u32) {
     }
 }
 
+/// Miri slice: boundary neighbourhoods and a few random patterns of both types, a few float conversions.
+pub fn miri(ctx: &mut Ctx, acc: &mut Acc, n: usize) {
+    let mut rng = Rng::derive(ctx.seed, "c15-unary32-miri", 0);
+    let mut xs: Vec<i32> = vec![0, 1, -1, 0x7FFF, 0x8000, 0x8001, -0x8000, 0xFFFF, 0x1_0000, -0x1_0000, 31, 32, 33, 63, 64, 0x1FF, 0x200, i32::MAX - 0x8000, i32::MAX - 0x200, i32::MIN, i32::MIN + 1, 0x7FFF_0000];
+    while xs.len() < n.max(22) {
+        xs.push(rng.u32() as i32 >> rng.below(31));
+    }
+    for which in 0..2u8 {
+        // blocks of 8: a panic in a block is attributed value by value
+        for c in xs.chunks(8) {
+            block(ctx, acc, &mut c.iter().copied(), which);
+        }
+    }
+    from_f64_random(ctx, acc, &mut rng, (n / 2) as u32);
+}
+
 pub fn run(ctx: &mut Ctx, acc: &mut Acc) {
     let (shard, n) = ctx.shard;
     let mut rng = Rng::derive(ctx.seed, "c15-unary32", shard as u64);
